@@ -196,8 +196,9 @@ def _get_aliases(result_types: dict, package_name: str) -> dict[str, set[str]]:
                 elif isinstance(type_value, mypy_types.CallableType | mypy_types.Overloaded):
                     # Functions of the package which are referenced through their module are no types
                     continue
-                else:  # pragma: no cover
-                    raise TypeError("Received unexpected type while searching for aliases.")
+                else:
+                    # Other values of the package which are referenced through their module are no types
+                    continue
 
                 aliases[name].add(fullname)
 
